@@ -169,6 +169,20 @@ ROUND7 = {
 for _i, _t in ROUND7.items():
     lvl, tech, text, note, ref = CHECKS[_i]
     CHECKS[_i] = (lvl, tech, text + _t, note, ref)
+# additions of the eighth round
+ROUND8 = {
+ "C02": " A dictionary is walked while the body removes, overwrites or adds an entry at pass 1..4: no entry twice, insertion order, every lasting entry visited.",
+ "C03": " 抛出 without arguments is a leaf statement.",
+ "C04": " Some 6 000 generated long mantissas (16..21 digits, the point in every position) are among the rounding-boundary spellings.",
+ "C09": " Every raise kind is also raised and handled 120 000 times in one run.",
+ "C10": " A list and an uncopied method result are changed and put into one another in every sequence of <= 3 operations; collections are put into themselves in every way, the refusal handled, the collection rendered in eight ways.",
+ "C15": " Scenarios reach an imported method through a variable, as an argument and through a middle module.",
+ "C16": " Writing the status line and the body of a response are scheduling points of the explorer.",
+ "C18": " A template plants the fault inside the handler of the body that raised.",
+}
+for _i, _t in ROUND8.items():
+    lvl, tech, text, note, ref = CHECKS[_i]
+    CHECKS[_i] = (lvl, tech, text + _t, note, ref)
 checks = []
 na = []
 for p in props:
